@@ -13,4 +13,5 @@ mkdir -p run evidence replays
 # pre-build both workspaces so that quick checks only do incremental work
 (cd harness && vcargo_hooks build --release --bins 2>&1 | tail -3)
 (cd loomh && vcargo_loom build --release 2>&1 | tail -3)
+(cd loomb && vcargo_loomb build --release 2>&1 | tail -3)
 echo "setup ok"
